@@ -589,8 +589,60 @@ def terminal_positions_level():
     return n, bad
 
 
+def thread_ends_level():
+    """IntronPathProcessor.thread_ends vs thread_starts on mirrored graphs: last intron (100,200) with every subset of terminal vertices
+       out of two polyA and two read-end positions, with / without a following intron, every read end on a grid, trusted or not"""
+    import src.intron_graph as IG
+    from src.graph_based_model_construction import IntronPathProcessor
+    from types import SimpleNamespace
+    L = 1000
+    params = SimpleNamespace(apa_delta=50, delta=6)
+
+    def proc(out_edges, in_edges):
+        g = IG.IntronGraph.__new__(IG.IntronGraph)
+        g.outgoing_edges = out_edges
+        g.incoming_edges = in_edges
+        p = IntronPathProcessor.__new__(IntronPathProcessor)
+        p.params = params
+        p.intron_graph = g
+        return p
+    intron = (100, 200)
+    m_intron = (L - 200, L - 100)
+    bad = []
+    n = 0
+    polya_pos = (300, 360)
+    end_pos = (320, 390)
+    for pa in itertools.chain.from_iterable(itertools.combinations(polya_pos, k) for k in range(3)):
+        for re_ in itertools.chain.from_iterable(itertools.combinations(end_pos, k) for k in range(3)):
+            for nxt in (None, (340, 500)):
+                outs = set((IG.VERTEX_polya, x) for x in pa) | set((IG.VERTEX_read_end, x) for x in re_)
+                if nxt:
+                    outs.add(nxt)
+                ins = set((IG.VERTEX_polyt, L - x) for x in pa) | set((IG.VERTEX_read_start, L - x) for x in re_)
+                if nxt:
+                    ins.add((L - nxt[1], L - nxt[0]))
+                pe = proc({intron: outs}, {})
+                ps = proc({}, {m_intron: ins})
+                for end in range(240, 460, 5):
+                    for trusted in (False, True):
+                        n += 1
+                        a = pe.thread_ends(intron, end, trusted)
+                        b = ps.thread_starts(m_intron, L - end, trusted)
+                        am = None if a is None else ({IG.VERTEX_polya: "tail", IG.VERTEX_read_end: "end"}[a[0]], a[1])
+                        bm = None if b is None else ({IG.VERTEX_polyt: "tail", IG.VERTEX_read_start: "end"}[b[0]], L - b[1])
+                        if am != bm:
+                            bad.append(((pa, re_, nxt, end, trusted), "tail vertices %s, end vertices %s, next intron %s, read end %d, trusted=%s: "
+                                        "thread_ends gives %s, thread_starts on the mirrored graph gives the mirror image of %s" %
+                                        (pa, re_, nxt, end, trusted, am, bm)))
+    return n, bad
+
+
 def run(ctx):
     quick = ctx.tier == "quick"
+    n_te, bad_te = thread_ends_level()
+    for case_, msg in bad_te[:3]:
+        ctx.violation("l0:thread-ends-not-mirrored", msg, {"case": [list(case_[0]), list(case_[1]), list(case_[2] or ()), case_[3], case_[4]]})
+    ctx.note("L0 thread ends/starts: %d (terminal vertices, read end, trusted) cases, thread_ends vs thread_starts on the mirrored graph" % n_te)
     n_tp, bad_tp = terminal_positions_level()
     for case_, msg in bad_tp[:3]:
         ctx.violation("l0:terminal-positions-not-mirrored", msg, {"case": [list(map(list, case_[0]))] + list(case_[1:])})
